@@ -99,6 +99,14 @@ def run(ctx):
         _verdict(run, "C18.R3", lf, "normalise once, then open", r, m)
 
     _r4(ctx)
+    # the fourth gate: an %include target goes through normalizeURL (and so
+    # through its fragment gate) on every path, whatever form it has
+    CLq = "ZConfig.loader.ConfigLoader"
+    lf = m.fn(CLq + ".includeConfiguration")
+    r = X.compare(P, lf, X.spec_method(P, "ref_loader.py",
+                                       "includeConfiguration", CLq))
+    _verdict(run, "C18.R4", lf, "%include target normalised (fragment gate) "
+             "before it is opened", r, m)
 
     # R5: parser constructions
     for q, ref, meth in ((SP + ".parseResource", "parseResource", None),
